@@ -117,6 +117,7 @@ class Build:
         self.probe_error = None   # text when the probe does not build (the tree does not compile)
         self.gen_errors = {}      # generated file -> translator error
         self.model_error = None
+        self.model_failed_areas = []   # Extract_<area>.v / drv_<area>.ml that did not build
         self.deps = {}            # .v -> set of .v it depends on (direct)
 
     def cone(self, vfile):
@@ -285,7 +286,14 @@ def build_model(b):
     stamp = tree_hash(THEORIES, (".v",)) + tree_hash(ex, (".v", "registry.ml", "driver.ml", "build.sh")) + \
         sha("".join(open(f).read() for f in sorted(_glob.glob(os.path.join(ex, "drv_*.ml")))))
     sp = os.path.join(CACHE, "model.stamp")
+
+    def read_failed():
+        try:
+            b.model_failed_areas = open(b.model + ".failed").read().split()
+        except OSError:
+            b.model_failed_areas = []
     if os.path.exists(b.model) and os.path.exists(sp) and open(sp).read() == stamp:
+        read_failed()
         return
     rc, out, err = run(["bash", os.path.join(ex, "build.sh"), b.model], timeout=1800)
     if rc != 0:
@@ -298,6 +306,9 @@ def build_model(b):
     else:
         with open(sp, "w") as f:
             f.write(stamp)
+        read_failed()
+        if b.model_failed_areas:
+            log("[prelude] model areas that did not build: %s" % " ".join(b.model_failed_areas))
 
 
 # ----------------------------------------------------------------------------------------
